@@ -408,7 +408,10 @@ func (p *ProofD) revocationAttrIndex() int {
 	params := revocation.Parameters
 	max := new(big.Int).Lsh(big.NewInt(1), params.AttributeSize+params.ChallengeLength+params.ZkStat+1)
 	for idx, i := range p.AResponses {
-		if i.Cmp(max) < 0 {
+		// Index 0 is the secret key, which the holder chooses: it is never the revocation attribute.
+		// (Considering it would let a holder whose secret equals the revocation value of another,
+		// unrevoked credential show a revoked credential with that credential's witness.)
+		if idx != 0 && i.Cmp(max) < 0 {
 			return idx
 		}
 	}
